@@ -6,3 +6,8 @@ add("C03", "exploration", "reference-model comparison + icontract post-condition
     "resolved by the real parse_range and compared with an independent resolver; the canonical-form post-condition is armed on the real function; "
     "random long range sets and arbitrary text are added. Held = on all of those executions.",
     "Trusts the 40-line reference resolver (vf/models/ranges.py) and the RFC 7233 tokenizer; 400-vs-416 precedence not pinned; non-grammar text only has to be rejected or canonical.")
+add("C02", "exploration", "reference-model comparison at the server boundary (own range resolver + known file bytes + tolerant byteranges reader), counted-bytes framing monitor, zero-copy window monitor",
+    "The real FileResponse of both interfaces (and ASGI with the zero-copy extension, materialised by pread) is driven by strict recording server emulators over a grid of "
+    "file sizes x chunk sizes x Range headers x If-Range values x GET/HEAD; status, Content-Range, every multipart part, body bytes and the declared Content-Length "
+    "(against counted bytes) are compared with an independent model. Held = on all responses produced.",
+    "Trusts the reference resolver, the byteranges reader and the emulators' recording; Range headers limited to the RFC grammar plus universally malformed ones.")
